@@ -18,6 +18,7 @@
 
 #include "weave_alignment.h"
 /* #include "weave_alignment.h" */
+#include "kalign_verif.h"
 
 #define ALN_RUN_IMPORT
 #include "aln_run.h"
@@ -108,7 +109,9 @@ void recursive_aln(struct msa* msa, struct aln_tasks*t, struct aln_param* ap, ui
         ml->ap = ap;
         ml->mode = ALN_MODE_FULL;
         ml->run_parallel = msa->run_parallel;
+        KV_EVENT(KV_MERGE_BEGIN, msa, t, c, local_t->a, local_t->b);
         do_align(msa,t,ml,c);
+        KV_EVENT(KV_MERGE_END, msa, t, c, local_t->a, local_t->b);
 
         active[local_t->a] = 0;
         active[local_t->b] = 0;
@@ -254,6 +257,7 @@ int do_align(struct msa* msa,struct aln_tasks* t,struct aln_mem* m, int task_id)
 
         t->profile[c] = tmp;
         RUN(make_seq(msa,a,b,m->path));
+        KV_EVENT(KV_NODE_DONE, msa, m, task_id, a, b);
 
         msa->plen[c] = m->path[0];
 
